@@ -210,6 +210,9 @@ def make_configs():
         "strcfg": dict(atom=AtomStr, operators=custom["strcfg"][0], steps=custom["strcfg"][1], alg="any",
                        mcfg="strcfg", classes=list(custom["strcfg"][0].values()), value=lambda a: a.value,
                        mvalue=L.eval_str),
+        "prefixcfg": dict(atom=P.RecAtom, operators=custom["prefixcfg"][0], steps=custom["prefixcfg"][1],
+                          alg="float", mcfg="prefixcfg", classes=list(custom["prefixcfg"][0].values()),
+                          value=lambda a: L.listify(a.value), mvalue=lambda t: t),
         "unarycfg": dict(atom=P.RecAtom, operators=custom["unarycfg"][0], steps=custom["unarycfg"][1],
                          alg="float", mcfg="unarycfg", classes=list(custom["unarycfg"][0].values()),
                          value=lambda a: L.listify(a.value), mvalue=lambda t: t),
@@ -705,13 +708,27 @@ def gen_logic(rng):
     return t, "valid"
 
 
+def gen_prefix(rng):
+    """a custom table whose symbols share leading characters (`>>` / `>>=`, `and` / `andnot`)"""
+    n = rng.randint(1, 4)
+    lx = [L.gen_lit(rng)]
+    for _ in range(n):
+        lx += [rng.choice([">>", ">>=", "and", "andnot", "+", ">>", "and"]), L.gen_lit(rng)]
+    if rng.random() < 0.2:
+        lx = ["("] + lx + [")"]
+    if rng.random() < 0.3:
+        kind, lx = inject_fault(rng, lx)
+        return join(rng, lx), kind
+    return join(rng, lx), "valid"
+
+
 def gen_stock(rng):
     if rng.random() < 0.3:
         return gen_logic(rng)
     return gen_edge(rng) if rng.random() < 0.6 else gen_default(rng)
 
 
-GENS = {"stockcfg": gen_stock, "varscfg": gen_vars, "arrayscfg": gen_vars, "inplacenumcfg": gen_num, "default": gen_default, "strcfg": gen_str, "unarycfg": gen_unary, "worldcfg": gen_world,
+GENS = {"stockcfg": gen_stock, "prefixcfg": gen_prefix, "varscfg": gen_vars, "arrayscfg": gen_vars, "inplacenumcfg": gen_num, "default": gen_default, "strcfg": gen_str, "unarycfg": gen_unary, "worldcfg": gen_world,
         "inplacecfg": gen_str, "countcfg": gen_default}
 
 
@@ -886,8 +903,8 @@ def correspond(ctx: Ctx):
     for f in sorted(CORPUS.glob("*.json")):
         for h in json.loads(f.read_text()).get("histories", []):
             plan.append((h["cfg"], cfgs[h["cfg"]], h["exprs"], None))
-    for cfgname in ("default", "strcfg", "unarycfg"):
-        for _ in range(count):
+    for cfgname in ("default", "strcfg", "unarycfg", "prefixcfg"):
+        for _ in range(count if cfgname != "prefixcfg" else count // 2):
             n = rng.randint(2, maxlen)
             calls = [GENS[cfgname](rng) for _ in range(n)]
             plan.append((cfgname, cfgs[cfgname], [c[0] for c in calls], [c[1] for c in calls]))
